@@ -72,9 +72,9 @@ func GenTemplate(r *common.Rand, cfg *fedlab.Config, u *fedlab.Universe) *Templa
 	if r.Chance(1, 4) {
 		g.max = 25 + r.Pick(30)
 	}
-	if r.Chance(1, 5) {
+	if r.Chance(1, 8) {
 		g.rep = true
-		g.max = 60 + r.Pick(40)
+		g.max = 40 + r.Pick(30)
 	}
 	t := &Template{}
 	if r.Chance(2, 3) {
